@@ -186,6 +186,11 @@ KERNELS4 += [
     dict(cname="num_compositions_jit", file=GT, py="num_compositions_jit", params=[("m", "Z"), ("n", "Z")], rtype="Z", fuels={}),
     dict(cname="simplex_grid", file=GT, py="simplex_grid", params=[("m", "Z"), ("n", "Z")], rtype="MZ", fuels={}),
 ]
+KERNELS4 += [      # appended after the kernels above: their generated text stays byte-identical
+    dict(cname="brent_max", file="quantecon/optimize/scalar_maximization.py", py="brent_max",
+         params=[("func", "F"), ("a", "T"), ("b", "T"), ("args", "ARGS"), ("xtol", "T"), ("maxiter", "Z")],
+         rtype=("T", "T", ("Z", "Z")), fuels={0: "S (Z.to_nat maxiter)"}),
+]
 # PO: the namedtuple PivOptions(fea_tol, tol_piv, tol_ratio_diff), flattened into three element parameters
 PO_FIELDS = ["fea_tol", "tol_piv", "tol_ratio_diff"]
 PO_DEFAULTS = ["FEA_TOL", "TOL_PIV", "TOL_RATIO_DIFF"]     # PivOptions.__new__.__defaults__ (checked in generate2)
